@@ -38,8 +38,12 @@ def mk_scripts(rng, n, sks):
             out.append(bytes([OP_SHA256]) + push_only(sha256(bytes([i & 255, i >> 8]))) + bytes([OP_EQUAL]))
         else:
             out.append(push_num(i) + bytes([OP_DROP, OP_1]))
+    origin = list(range(n))
     if n >= 2 and rng.random() < 0.25:
-        out[rng.randrange(n)] = out[rng.randrange(n)]      # equal scripts
+        a, b = rng.randrange(n), rng.randrange(n)
+        out[a] = out[b]      # equal scripts
+        origin[a] = b        # (leaf a is to be satisfied like leaf b: same key / preimage)
+    mk_scripts.origin = origin
     return out
 
 
@@ -64,6 +68,7 @@ def tree_case(job):
         ikey = secp.xonly_from_sec(isk)
         sks = [rsign.rnd_sk(rng) for _ in range(3)]
         scripts = mk_scripts(rng, n, sks)
+        origin = list(mk_scripts.origin)
         hrp = rng.choice(['bcrt', 'bcrt', 'tb', 'bc'])
         pre = [] if hrp == 'bcrt' and rng.random() < 0.7 else ['--addrprefix=' + hrp]
         base = [ikey.hex(), str(n)] + ['0x' + s.hex() for s in scripts]
@@ -104,7 +109,7 @@ def tree_case(job):
             sc = scripts[idx]
             is_hashlock = sc[0] == OP_SHA256
             if is_hashlock:
-                extra = ['0x' + bytes([idx & 255, idx >> 8]).hex()]
+                extra = ['0x' + bytes([origin[idx] & 255, origin[idx] >> 8]).hex()]
             r = run_tap(tap, pre + ['--tx=' + txh, '--txin=' + finh] + base + [str(idx)] + extra, wd)
             if r.abnormal:
                 part.violation('spend-run:' + r.crash_key('tap'), dict(wit, run=r.brief()))
@@ -149,7 +154,7 @@ def tree_case(job):
             if rt.version != tx.version or rt.vin[0][:2] != tx.vin[0][:2] or rt.vout != tx.vout or rt.locktime != tx.locktime:
                 part.violation('resulting-transaction-alters-signed-fields', dict(wit))
                 continue
-            if w[1:-2] != ([bytes([idx & 255, idx >> 8])] if is_hashlock else []):
+            if w[1:-2] != ([bytes([origin[idx] & 255, origin[idx] >> 8])] if is_hashlock else []):
                 part.violation('spend-arguments-not-carried-into-witness', dict(wit, witness=[x.hex()[:40] for x in w]))
         if len(outkeys) > 1:
             part.violation('leaves-commit-to-different-roots', dict(wit0, roots=[x.hex() for x in outkeys]))
@@ -188,7 +193,7 @@ def tree_case(job):
             else:
                 leaf = taproot.tapleaf_hash(scripts[idx])
                 want = sighash.sighash_taproot(rt, 0, 0, spent, 1, None, leaf, 0xffffffff)
-                signer = sks[idx % len(sks)] + idx
+                signer = sks[origin[idx] % len(sks)] + origin[idx]      # (a leaf that repeats another leaf's script is signed with that leaf's key)
             if got != want:
                 part.violation('reported-sighash-differs:' + kind, dict(wit, reported=got.hex(), reference=want.hex(), tx=mt.group(1)[:400]))
                 continue
